@@ -54,6 +54,10 @@ var mutations = map[string]mutation{
 	"c13-first-listed":        one("C13", "kmipclient/client.go", "if best == nil || ttlv.CompareVersions(v, *best) > 0 {", "if best == nil {"),
 	"c13-enforced-negotiates": one("C13", "kmipclient/client.go", "\tif c.version != nil {\n\t\treturn nil\n\t}\n\tmsg := kmip.NewRequestMessage(kmip.V1_1", "\tmsg := kmip.NewRequestMessage(kmip.V1_1"),
 	"c13-cluster-nil-timeout": one("C13", "kmipclient/dialer_cluster.go", "\t\tretryTimeout := 5 * time.Second\n\t\topts.retryTimeout = &retryTimeout\n", "\t\t*opts.retryTimeout = 5 * time.Second\n"),
+	"c11-cluster-date-nil":    one("C11", "kmipclient/dialer_cluster.go", "servers[0].lastError = time.Time{}", "servers[0].lastError = time.Date(0, 0, 0, 0, 0, 0, 0, nil)"),
+	"c11-default-dialer-captures-ctx": {"C11", []edit{
+		{"kmipclient/client.go", "\tdialer := opts.dialer\n\tif dialer == nil {\n\t\tdialer = func(ctx context.Context) (net.Conn, error) {\n\t\t\ttlsDialer := tls.Dialer{\n\t\t\t\tConfig: tlsCfg,\n\t\t\t}\n\t\t\treturn tlsDialer.DialContext(ctx, \"tcp\", addr)", "\tdialer := opts.dialer\n\tif dialer == nil {\n\t\tdialCtx0 := ctx\n\t\tdialer = func(ctx context.Context) (net.Conn, error) {\n\t\t\ttlsDialer := tls.Dialer{\n\t\t\t\tConfig: tlsCfg,\n\t\t\t}\n\t\t\treturn tlsDialer.DialContext(dialCtx0, \"tcp\", addr)"},
+	}},
 	// C15
 	"c15-shared-batchdata": {"C15", []edit{
 		{"kmipserver/context.go", "\tbdata := &batchData{\n\t\theader: hdr,\n\t}\n", "\tbdata := &sharedBatchData\n\tbdata.header = hdr\n"},
